@@ -190,12 +190,14 @@ class DampedOscillationMegacomplex(Megacomplex):
 
 @nb.jit(nopython=True, parallel=True)
 def calculate_damped_oscillation_matrix_no_irf(matrix, frequencies, rates, axis):
+    # The clp labels are ordered [cos_1, ..., cos_n, sin_1, ..., sin_n].
+    number_of_oscillations = len(frequencies)
     idx = 0
     for frequency, rate in zip(frequencies, rates):
         osc = np.exp(-rate * axis - 1j * frequency * axis)
         matrix[:, idx] = osc.real
-        matrix[:, idx + 1] = osc.imag
-        idx += 2
+        matrix[:, idx + number_of_oscillations] = osc.imag
+        idx += 1
 
 
 def calculate_damped_oscillation_matrix_gaussian_irf_on_index(
